@@ -669,6 +669,12 @@ func (g *graph) compile(ctx context.Context, opt *graphCompileOptions) (*composa
 			return nil, fmt.Errorf("some node's input or output types cannot be inferred: %v", g.toValidateMap)
 		}
 	}
+	// a pass-through node that is not connected to anything never gets a type either
+	for name, node := range g.nodes {
+		if node.inputType() == nil || node.outputType() == nil {
+			return nil, fmt.Errorf("node[%s]'s input or output types cannot be inferred", name)
+		}
+	}
 
 	// pre-node handlers of this compilation: a copy, so that compiling the same graph again (e.g. a graph
 	// reused as a node, or a second Compile call) never changes the tables of an already compiled runnable
